@@ -35,6 +35,8 @@ import (
 	"github.com/bluenviron/gortsplib/v5/pkg/base"
 	"github.com/bluenviron/gortsplib/v5/pkg/description"
 	"github.com/bluenviron/gortsplib/v5/pkg/format"
+	"github.com/bluenviron/gortsplib/v5/pkg/rtpreceiver"
+	"github.com/bluenviron/gortsplib/v5/pkg/rtpsender"
 	"github.com/pion/rtcp"
 	"github.com/pion/rtp"
 
@@ -472,6 +474,7 @@ type scenario struct {
 	WaitPkts       int          `json:"waitpkts"` // the injected Close waits until the server has seen this many packet callbacks (at most 2 s)
 	WaitInject     bool         `json:"waitinj"`  // ... until the in-callback injection has been carried out (at most 2 s)
 	ClientCloseCb  int          `json:"cclosecb"` // > 0: readers call Client.Close from inside their n-th OnPacketRTP
+	ReportUs       int          `json:"reportus"` // > 0: period (microseconds) of the RTCP sender / receiver report goroutines of server and clients, so that Close races their ticks
 	Corpus         string       `json:"corpus,omitempty"`
 }
 
@@ -553,6 +556,9 @@ func runScenario(sc *scenario) (word []uint64, final bool, fails []failure, maxC
 			Handler: h, RTSPAddress: "127.0.0.1:" + strconv.Itoa(port),
 			UDPRTPAddress: "127.0.0.1:" + strconv.Itoa(udpPort), UDPRTCPAddress: "127.0.0.1:" + strconv.Itoa(udpPort+1),
 			WriteQueueSize: sc.Q, ReadTimeout: 3 * time.Second, WriteTimeout: 1500 * time.Millisecond, IdleTimeout: 30 * time.Second,
+		}
+		if sc.ReportUs > 0 {
+			srv.VerifSMSetPeriods(0, time.Duration(sc.ReportUs)*time.Microsecond, time.Duration(sc.ReportUs)*time.Microsecond)
 		}
 		if err := srv.Start(); err == nil {
 			break
@@ -722,6 +728,9 @@ func runScenario(sc *scenario) (word []uint64, final bool, fails []failure, maxC
 				Scheme: "rtsp", Host: "127.0.0.1:" + strconv.Itoa(port),
 				ReadTimeout: 3 * time.Second, WriteTimeout: 1200 * time.Millisecond, WriteQueueSize: sc.Q,
 				OnPacketsLost: func(uint64) {}, OnDecodeError: func(error) {},
+			}
+			if sc.ReportUs > 0 {
+				c.VerifSMSetPeriods(0, time.Duration(sc.ReportUs)*time.Microsecond, time.Duration(sc.ReportUs)*time.Microsecond)
 			}
 			switch role {
 			case roleReadUDP, rolePubUDP:
@@ -1152,7 +1161,63 @@ func genScenario(rng *hx.Rand, i int) *scenario {
 	if rng.Intn(6) == 0 {
 		sc.ClientCloseCb = 1 + rng.Intn(20)
 	}
+	if rng.Intn(3) == 0 {
+		sc.ReportUs = hx.Pick(rng, 50, 100, 300, 1000, 5000)
+	}
 	return sc
+}
+
+// pkgCloseStress: Close of the two report-goroutine owners (pkg/rtpreceiver, pkg/rtpsender: both anchored by C13)
+// racing their own ticks: with a period of 50 us .. 1 ms a Close almost always overlaps a report() call.
+// Close must return in bounded time and leave no goroutine behind.
+func pkgCloseStress(ctx *hx.Ctx) {
+	iters := ctx.Budget(150, 3000)
+	bounded := func(f func()) bool {
+		done := make(chan struct{})
+		go func() { f(); close(done) }()
+		select {
+		case <-done:
+			return true
+		case <-time.After(3 * time.Second):
+			return false
+		}
+	}
+	for _, us := range []int{50, 200, 1000} {
+		per := time.Duration(us) * time.Microsecond
+		hung := 0
+		for i := 0; i < iters && hung == 0; i++ {
+			rr := &rtpreceiver.Receiver{ClockRate: 90000, Period: per, WritePacketRTCP: func(rtcp.Packet) {}}
+			if err := rr.Initialize(); err != nil {
+				ctx.Failf(-1, "harness-receiver-init", "", "rtpreceiver.Initialize: %v", err)
+				break
+			}
+			rr.ProcessPacket2(&rtp.Packet{Header: rtp.Header{Version: 2, PayloadType: 96, SequenceNumber: uint16(i), SSRC: 7}, Payload: []byte{1}}, time.Now(), true)
+			time.Sleep(time.Duration(ctx.Rng.Intn(3*us+1)) * time.Microsecond)
+			if !bounded(rr.Close) {
+				hung++
+				ctx.Failf(-1, "receiver-close-hang", fmt.Sprintf("rtpreceiver.Receiver{Period: %v}: Initialize, one packet, Close (iteration %d)", per, i),
+					"Receiver.Close() did not return within 3 s while the report goroutine ticks every %v", per)
+			}
+			ctx.Eval()
+			ctx.Kind("pkg-close:rtpreceiver")
+		}
+		for i := 0; i < iters && hung == 0; i++ {
+			rs := &rtpsender.Sender{ClockRate: 90000, Period: per, WritePacketRTCP: func(rtcp.Packet) {}}
+			rs.Initialize()
+			rs.ProcessPacket(&rtp.Packet{Header: rtp.Header{Version: 2, PayloadType: 96, SequenceNumber: uint16(i), SSRC: 7}, Payload: []byte{1}}, time.Now(), true)
+			time.Sleep(time.Duration(ctx.Rng.Intn(3*us+1)) * time.Microsecond)
+			if !bounded(rs.Close) {
+				hung++
+				ctx.Failf(-1, "sender-close-hang", fmt.Sprintf("rtpsender.Sender{Period: %v}: Initialize, one packet, Close (iteration %d)", per, i),
+					"Sender.Close() did not return within 3 s while the report goroutine ticks every %v", per)
+			}
+			ctx.Eval()
+			ctx.Kind("pkg-close:rtpsender")
+		}
+	}
+	if left := waitNoLibGoroutines(2 * time.Second); len(left) != 0 {
+		ctx.Failf(-1, "pkg-close-goroutine-leak", "rtpreceiver / rtpsender Close stress", "%d library goroutines left after every Receiver / Sender was closed: %s", len(left), firstFrames(left[0], 4))
+	}
 }
 
 func wordLine(final bool, w []uint64) string {
@@ -1403,6 +1468,8 @@ func main() {
 		ctx.Eval()
 		ctx.Kind("automaton-self-check")
 	}
+
+	pkgCloseStress(ctx)
 
 	n := ctx.Budget(400, 6000)
 	if v := os.Getenv("LIFECYCLE_RUNS"); v != "" {
